@@ -34,6 +34,7 @@ ASSUMPTIONS = ["model ECDH = x-coordinate of d*Q, big-endian, padded to the "
                "byte length of p", "not judged (property silent): "
                "byte-loading a public key while no curve is set; "
                "get_public_key before a private key is loaded"]
+HISTORY_DIFF = {"quick": 120, "thorough": 1000}
 SHRINK = [["ops"]]
 REQUIRED_PROBES = {"quick": ["secret_leading_zero", "both_agree",
                              "invalid_curve", "no_key", "infinity_secret",
@@ -216,7 +217,8 @@ def execute(prog):
                          i, name, type(ex).__name__, ex,
                          "success" if not want_exc else
                          "/".join(c.__name__ for c in want_exc)))
-            log.append((i, name, "ok"))
+            log.append((i, name, "ok", repr(res)[:80] if isinstance(
+                res, (int, bytes)) else ""))
             if want_exc:
                 fail("outcome", name + "-not-refused",
                      "node %d %s succeeded; the model expects %s" % (
@@ -606,6 +608,7 @@ def execute(prog):
                 pass
     out["steps"] = out["ops"]
     out["digest"] = core.digest_of(log)
+    out["rdigest"] = out["digest"]
     return out
 
 
